@@ -8,9 +8,10 @@ from harness.framework import Suite
 
 PID = "C06"
 LEAN_MODS = ["SwcVerif.Props.C06", "SwcVerif.Props.C06Gen"]
-TRANSLATE_ALGO = ["AlgoTraverse", "AlgoSubtree"]   # Gen/AlgoSubtree.lean is regenerated on every run from swc_utils/subtree.py (to_sub_topology,
-# get_subtree_impl and its collecting lambda, propagate_removal and its closure); it calls the traversal generated into Gen/AlgoTraverse.lean
-DRIVER_FILES = ["SwcVerif/Model/AlgoRunSubtree.lean"]
+TRANSLATE_ALGO = ["AlgoTraverse", "AlgoSubtree", "AlgoNode", "AlgoCut"]   # Gen/AlgoSubtree.lean is regenerated on every run from swc_utils/subtree.py (to_sub_topology,
+# get_subtree_impl and its collecting lambda, propagate_removal and its closure); it calls the traversal generated into Gen/AlgoTraverse.lean;
+# Gen/AlgoCut.lean from tree_utils.py (to_subtree, cut_tree in both overloads with the closures _enter / _leave that call the user's callback)
+DRIVER_FILES = ["SwcVerif/Model/AlgoRunSubtree.lean", "SwcVerif/Model/AlgoRunCut.lean"]
 THEOREMS = [
     "C06.toSubTopology_spec", "C06.toSubTopology_ok_iff", "C06.attrs_preserved", "C06.subtree_nodes", "C06.propagate_marks",
     "C06.removedSet_all", "C06.removedSet_sound", "C06.toSubtree_kept", "C06.cutEnter_removed", "C06.cutLeave_removed",
@@ -520,6 +521,14 @@ class Ops(Suite):
         # (their closures and the traversal they call included)
         if k in ("subtree", "tosub") and case["op"]["op"] in ("subtree", "tosub"):
             out.append((f"g{k} {a}", want))
+        # ... and through the definitions GENERATED from tree_utils.py: to_subtree as a whole, cut_tree in both overloads with its closures
+        # `_enter` / `_leave` calling the user's callback (the callback is encoded as for the model ops; the generated op runs it statefully)
+        if case["op"]["op"] == "tosub":
+            out.append((f"gtosubtree {a}", want))
+        elif case["op"]["op"] in ("cutenter", "cutdepth", "cutleave"):
+            out.append((f"g{k} {a}", want))
+        elif case["op"]["op"] == "cutattr":
+            out.append((f"{'gcutenter' if op['form'] == 'enter' else 'gcutleaveset'} {a}", want))
         return out
 
     def oracle(self, case, res):
